@@ -114,6 +114,23 @@ class C20(Oracle):
             if r is not None:
                 w.violation('C20', 'write-through', st, r, culprit)
                 return
+        # -- a scalar stored through an index lands on EVERY element the index selects (NumPy's
+        #    broadcast): whatever code it quantizes to, the whole written region holds that one code
+        #    (no value is predicted: the region is only compared with itself)
+        if st.kind == 'indexed' and st.outcome == 'ok' and st.wthrough and not st.nested and \
+                st.op['op'] == 'setitem' and isinstance(st.op.get('val'), list) and \
+                st.op['val'][0] in ('i', 'f', 'n', 's', 'd') and w.slots[st.dest].alive and \
+                not st.extra.get('selfwrites') and 'selfreset_at' not in st.extra:
+            dpos = st.extra['pre_alias'][st.dest][1].ravel().tolist()
+            _, _, dflat = codes_of(w.slots[st.dest].obj)
+            if len(dpos) == len(dflat):
+                got = [c for p_, c in zip(dpos, dflat) if p_ in st.wthrough]
+                if got and not all(same(c, got[0]) for c in got):
+                    w.violation('C20', 'write-through', st,
+                                {'what': 'a scalar stored through an index did not reach every selected element',
+                                 'index': repr(st.op.get('index')), 'region_holds': short(got)}, culprit)
+                    return
+                w.bump('scalar_indexed_store_region_uniform')
         # -- chained assignment x[i][j] = v: the transient view and the root agree afterwards
         t = st.extra.get('chain_transient')
         if t is not None and st.outcome == 'ok' and st.wthrough is not None and isinstance(st.index, tuple):
@@ -142,6 +159,12 @@ class C20(Oracle):
             w.violation('C20', 'aliases-caller-array', st,
                         {'what': 'np.array(x) returned an array sharing memory with x', 'slot': st.extra['export_aliases']},
                         culprit)
+            return
+        # -- an index list / array / mask is the caller's too
+        if st.extra.get('index_mutated') is not None:
+            w.violation('C20', 'container-mutated', st,
+                        {'what': 'the index object passed by the caller was modified', 'now': st.extra['index_mutated'],
+                         'given': repr(st.op.get('index'))}, culprit)
             return
         # -- caller-owned containers
         ck = st.extra.get('container')
@@ -627,6 +650,15 @@ class C04(Oracle):
         if sto.prop and any(n.dest in sto.prop for n in all_nested(st)):
             prop_late = any(w.slots[i].alive and isinstance(w.slots[i].obj.status, dict) and
                             w.slots[i].obj.status.get('inaccuracy') for i in sto.prop)
+        # ... and the other way round: an operand that was reset while the operation was in flight (it
+        # is the register itself and its own handler reset it - fault F8 - or a nested step reset it) no
+        # longer carries the flag when the wrapper reads it (seen: fxp_min(x, out=x), VERIF_SEED=504)
+        if sto.prop and (('selfreset_at' in st.extra and st.dest in sto.prop) or
+                         any((n.extra.get('reset') or 'selfreset_at' in n.extra) and n.dest in sto.prop
+                             for n in all_nested(st))):
+            prop_inacc = any(w.slots[i].alive and isinstance(w.slots[i].obj.status, dict) and
+                             w.slots[i].obj.status.get('inaccuracy') for i in sto.prop)
+            w.bump('c04_operand_reset_in_flight')
         post = {f: bool(tgt.status.get(f, False)) for f in FLAGS}
         aborted = st.outcome == 'aborted'
         judged_exact = False
